@@ -6,6 +6,7 @@ import (
 	"time"
 
 	"github.com/pip-services3-gox/pip-services3-expressions-gox/calculator"
+	rio "github.com/pip-services3-gox/pip-services3-expressions-gox/io"
 	"github.com/pip-services3-gox/pip-services3-expressions-gox/calculator/functions"
 
 	"github.com/pip-services3-gox/pip-services3-expressions-gox/calculator/parsers"
@@ -362,6 +363,7 @@ func propScaleScanner(c *Ctx) {
 		ops = append(ops, fmt.Sprintf("m%d", n/2), "r", "p", fmt.Sprintf("m%d", n), "r", "x")
 		runScanCase(c, content, ops)
 	}
+	propScanHuge(c, 1<<24+37)
 	// long multi-unreads, from the end-of-input slot, from the last character and from the middle, over tails with and
 	// without a line break
 	for _, t := range []int{15, 16, 17, 31, 32, 33, 34, 40, 64, 65, 130} {
@@ -404,6 +406,62 @@ func propScaleScanner(c *Ctx) {
 				runScanCase(c, content, ops)
 			}
 		}
+	}
+}
+
+// one content of more than 2^24 characters read to its end: every character is delivered, the end-of-input slot comes after
+// the last one, line and column are those of a forward count
+func propScanHuge(c *Ctx, n int) {
+	op := fmt.Sprintf("scanhuge %d", n)
+	c.record(op, true)
+	c.count("content-len:huge")
+	note := ""
+	st := safeCallT(60*time.Second, func() string {
+		big := make([]rune, n)
+		for i := range big {
+			big[i] = 'x'
+		}
+		breaks := []int{5, 1<<16 - 1, 1 << 16, 1<<24 - 2, 1 << 24, n - 3}
+		for _, b := range breaks {
+			big[b] = '\n'
+		}
+		s := rio.NewStringScanner(string(big))
+		reads, line, col := 0, 1, 0
+		for {
+			r := s.Read()
+			if r == -1 {
+				break
+			}
+			if r != big[reads] {
+				note = fmt.Sprintf("read #%d returned %d, the content has %d there", reads, r, big[reads])
+				return ""
+			}
+			reads++
+			if r == '\n' {
+				line, col = line+1, 0
+			} else {
+				col++
+			}
+			if reads > n {
+				break
+			}
+		}
+		if reads != n {
+			note = fmt.Sprintf("end of input reported after %d characters, the content has %d", reads, n)
+			return ""
+		}
+		if s.Line() != line || s.Column() != col {
+			note = fmt.Sprintf("at the end of input the scanner reports %d:%d, a forward count gives %d:%d", s.Line(), s.Column(), line, col)
+			return ""
+		}
+		s.UnreadMany(3)
+		if r := s.Read(); r != big[n-2] {
+			note = fmt.Sprintf("after UnreadMany(3) from the end-of-input slot, read returned %d, expected the character at offset %d (%d)", r, n-2, big[n-2])
+		}
+		return ""
+	})
+	if st != "" || note != "" {
+		c.fail(Failure{Kind: "oracle", Op: op, Impl: st, Note: fmt.Sprintf("content of %d characters: %s%s", n, note, st)})
 	}
 }
 
